@@ -192,6 +192,9 @@ def units(props):
     U('NLRI.construct_mpls_label_stack', N + 'NLRI.construct_mpls_label_stack', ls_c_args,
       lambda it, lbls: ('ret', label_stack_enc(it._mp)))
 
+    U('MPLSVPN.construct_mpls_label_stack', N + 'mpls_vpn.MPLSVPN.construct_mpls_label_stack', ls_c_args,
+      lambda it, lbls: ('ret', label_stack_enc(it._mp)))
+
     def ls_p_args(it):
         it._mp = labels(it, 'a')
         close_zero_flag(it)
@@ -199,6 +202,8 @@ def units(props):
         it.p.assume(rest.len <= 17)
         return [SBytes.of(SP.cat(label_stack_enc(it._mp), rest))]
     U('NLRI.parse_mpls_label_stack', N + 'NLRI.parse_mpls_label_stack', ls_p_args,
+      lambda it, data: ('ret', list(it._mp)), concrete_loops=True)
+    U('MPLSVPN.parse_mpls_label_stack', N + 'mpls_vpn.MPLSVPN.parse_mpls_label_stack', ls_p_args,
       lambda it, data: ('ret', list(it._mp)), concrete_loops=True)
 
     # ---------------- labeled unicast (RFC 8277), IPv4 and IPv6
@@ -237,19 +242,202 @@ def units(props):
         def lup_args(it, lu_items=lu_items, lu_enc=lu_enc, width=width):
             raw = lu_items(it)
             ap = it.p.branch(z3.Bool('add_path'))
+            wd = it.p.branch(z3.Bool('withdraw'))
             pids = [sym_int(it, 'pid%d' % i, 0, 2 ** 32 - 1) for i in range(len(raw))] if ap else None
-            it._mp = (raw, pids)
-            return [SBytes.of(lu_enc(raw, width, pids=pids)), ap]
+            it._mp = (raw, pids, wd)
+            return [SBytes.of(lu_enc(raw, width, withdraw=wd, pids=pids)), ap, wd]
 
-        def lup_expect(it, data, addpath, txt=txt):
-            raw, pids = it._mp
+        def lup_expect(it, data, addpath, iswithdraw, txt=txt):
+            raw, pids, wd = it._mp
             out = []
             for i, (a, l, lb) in enumerate(raw):
-                d = {'prefix': txt(a, l), 'label': list(lb)}
+                d = {'prefix': txt(a, l), 'label': [524288] if wd else list(lb)}
                 if pids:
                     d['path_id'] = pids[i]
                 out.append(d)
             return 'ret', out
         U('IPv%dLabeledUnicast.parse' % fam, N + 'labeled_unicast.LabeledUnicast.parse', lup_args, lup_expect, receiver_cls=cq,
           concrete_loops=True, max_paths=20000)
+
+    # ---------------- route distinguishers (RFC 4364 4.2) and VPNv4 / VPNv6 (one label per route, as the decoder assumes)
+    def rd_value(it, tag, kind=None):
+        """(text, 8 octets) of a route distinguisher; the type is forked unless given"""
+        k = it.p.choose(3, 'rd-type-' + tag) if kind is None else kind
+        if k == 0:
+            asn, an = sym_int(it, 'rd_asn_' + tag, 0, 65535), sym_int(it, 'rd_an_' + tag, 0, 2 ** 32 - 1)
+            return STR.concat([STR.dec(asn), ':', STR.dec(an)]), SP.cat(SP.be(0, 2), SP.be(asn, 2), SP.be(an, 4))
+        if k == 1:
+            ip, an = sym_int(it, 'rd_ip_' + tag, 0, 2 ** 32 - 1), sym_int(it, 'rd_an_' + tag, 0, 65535)
+            return STR.concat([STR.ip4(ip), ':', STR.dec(an)]), SP.cat(SP.be(1, 2), SP.be(ip, 4), SP.be(an, 2))
+        asn, an = sym_int(it, 'rd_asn_' + tag, 65536, 2 ** 32 - 1), sym_int(it, 'rd_an_' + tag, 0, 65535)
+        return STR.concat([STR.dec(asn), ':', STR.dec(an)]), SP.cat(SP.be(2, 2), SP.be(asn, 4), SP.be(an, 2))
+
+    def rdc_args(it):
+        it._mp = rd_value(it, 'a')
+        return [it._mp[0]]
+    U('MPLSVPN.construct_rd', N + 'mpls_vpn.MPLSVPN.construct_rd', rdc_args, lambda it, d: ('ret', it._mp[1]))
+
+    def rdp_args(it):
+        it._mp = rd_value(it, 'a')
+        return [SBytes.of(it._mp[1])]
+    U('MPLSVPN.parse_rd', N + 'mpls_vpn.MPLSVPN.parse_rd', rdp_args, lambda it, d: ('ret', it._mp[0]))
+
+    for fam, width, cq in ((4, 4, N + 'ipv4_mpls_vpn.IPv4MPLSVPN'), (6, 16, N + 'ipv6_mpls_vpn.IPv6MPLSVPN')):
+        txt = text4 if fam == 4 else text6
+
+        def vpn_items(it, fam=fam, width=width):
+            n = 1 + it.p.choose(2, 'n-routes')
+            raw = []
+            for i in range(n):
+                addr, plen = canonical_prefix(it, 'r%d' % i, width, plen=None if i == 0 else (24 if fam == 4 else 64))
+                rd = rd_value(it, 'r%d' % i, kind=None if i == 0 else 0)
+                raw.append((addr, plen, one_label(it, 'r%d' % i), rd))
+            close_zero_flag(it)
+            return raw
+
+        def vpn_enc(raw, width, withdraw=False, pids=None):
+            out = []
+            for i, (a, l, lb, rd) in enumerate(raw):
+                e = SP.cat(SP.be(88 + l, 1), label_stack_enc(lb, withdraw), rd[1], prefix_enc(a, l, width))
+                out.append(SP.cat(SP.be(pids[i], 4), e) if pids else e)
+            return SP.cat(*out)
+
+        def vc_args(it, vpn_items=vpn_items, txt=txt):
+            raw = vpn_items(it)
+            wd = it.p.branch(z3.Bool('withdraw'))
+            it._mp = (raw, wd)
+            return [[{'prefix': txt(a, l), 'label': list(lb), 'rd': rd[0]} for (a, l, lb, rd) in raw], wd]
+
+        def vc_expect(it, value, iswithdraw, vpn_enc=vpn_enc, width=width):
+            raw, wd = it._mp
+            return 'ret', vpn_enc(raw, width, withdraw=wd)
+        U('IPv%dMPLSVPN.construct' % fam, N + 'mpls_vpn.MPLSVPN.construct', vc_args, vc_expect, receiver_cls=cq)
+
+        def vp_args(it, vpn_items=vpn_items, vpn_enc=vpn_enc, width=width):
+            raw = vpn_items(it)
+            wd = it.p.branch(z3.Bool('withdraw'))
+            ap = it.p.branch(z3.Bool('add_path'))
+            pids = [sym_int(it, 'pid%d' % i, 0, 2 ** 32 - 1) for i in range(len(raw))] if ap else None
+            it._mp = (raw, wd, pids)
+            return [SBytes.of(vpn_enc(raw, width, withdraw=wd, pids=pids)), wd, ap]
+
+        def vp_expect(it, value, iswithdraw, addpath, txt=txt):
+            raw, wd, pids = it._mp
+            out = []
+            for i, (a, l, lb, rd) in enumerate(raw):
+                d = {'label': [524288] if wd else list(lb), 'rd': rd[0], 'prefix': txt(a, l)}
+                if pids:
+                    d['path_id'] = pids[i]
+                out.append(d)
+            return 'ret', out
+        U('IPv%dMPLSVPN.parse' % fam, N + 'mpls_vpn.MPLSVPN.parse', vp_args, vp_expect, receiver_cls=cq,
+          concrete_loops=True, max_paths=20000)
+
+    # ---------------- MP_REACH_NLRI / MP_UNREACH_NLRI: family dispatch and envelope (RFC 4760), one route per family shape
+    # (the per-family NLRI codecs above carry the quantification over prefix lengths, labels, RD types)
+    MPR = AT + 'mpreachnlri.MpReachNLRI.'
+    MPU = AT + 'mpunreachnlri.MpUnReachNLRI.'
+    FAMILIES = ['v6', 'v6-linklocal', 'vpnv4', 'vpnv6', 'lu4', 'lu6']
+
+    def addr_full(it, tag, width):
+        octs = []
+        for k in range(width):
+            o = z3.Int('%s_o%d' % (tag, k))
+            it.p.assume(z3.And(o >= 0, o <= 255))
+            octs.append(o)
+        return Addr(octs)
+
+    def reach_case(it):
+        fam = FAMILIES[it.p.choose(len(FAMILIES), 'family')]
+        d = {'fam': fam}
+        if fam in ('v6', 'v6-linklocal'):
+            nh = addr_full(it, 'nh', 16)
+            a, l = canonical_prefix(it, 'r0', 16, plen=64)
+            d.update(afi=2, safi=1, nh_text=STR.ip6(nh), nh_bin=octets_bytes(nh.octs, 16), nlri=[text6(a, l)], nlri_bin=prefix6_enc(a, l))
+            if fam == 'v6-linklocal':
+                ll = addr_full(it, 'll', 16)
+                d.update(ll_text=STR.ip6(ll), nh_bin=SP.cat(d['nh_bin'], octets_bytes(ll.octs, 16)))
+        elif fam in ('vpnv4', 'vpnv6'):
+            w = 4 if fam == 'vpnv4' else 16
+            nh = addr_full(it, 'nh', w)
+            a, l = canonical_prefix(it, 'r0', w, plen=24 if w == 4 else 64)
+            rd = rd_value(it, 'r0', kind=0)
+            lb = one_label(it, 'r0')
+            close_zero_flag(it)
+            it.p.assume(lb[0].t != 0)
+            txt = text4 if w == 4 else text6
+            d.update(afi=1 if w == 4 else 2, safi=128, nh_text={'rd': '0:0', 'str': (STR.ip4 if w == 4 else STR.ip6)(nh)},
+                     nh_bin=SP.cat(b'\x00' * 8, octets_bytes(nh.octs, w)),
+                     nlri=[{'label': list(lb), 'rd': rd[0], 'prefix': txt(a, l)}],
+                     nlri_bin=SP.cat(SP.be(88 + l, 1), label_stack_enc(lb), rd[1], prefix_enc(a, l, w)))
+        else:
+            w = 4 if fam == 'lu4' else 16
+            nh = addr_full(it, 'nh', w)
+            a, l = canonical_prefix(it, 'r0', w, plen=24 if w == 4 else 64)
+            lb = one_label(it, 'r0')
+            close_zero_flag(it)
+            it.p.assume(lb[0].t != 0)
+            txt = text4 if w == 4 else text6
+            d.update(afi=1 if w == 4 else 2, safi=4, nh_text=(STR.ip4 if w == 4 else STR.ip6)(nh), nh_bin=octets_bytes(nh.octs, w),
+                     nlri=[{'prefix': txt(a, l), 'label': list(lb)}],
+                     nlri_bin=SP.cat(SP.be(24 + l, 1), label_stack_enc(lb), prefix_enc(a, l, w)))
+        return d
+
+    def reach_value(d):
+        v = {'afi_safi': (d['afi'], d['safi']), 'nexthop': d['nh_text'], 'nlri': d['nlri']}
+        if 'll_text' in d:
+            v['linklocal_nexthop'] = d['ll_text']
+        return v
+
+    def reach_body(d):
+        return SP.cat(SP.be(d['afi'], 2), SP.be(d['safi'], 1), SP.be(SP.blen(d['nh_bin']), 1), d['nh_bin'], b'\x00', d['nlri_bin'])
+
+    def attr_ext(code, flags, body):
+        return SP.cat(SP.be(flags, 1), SP.be(code, 1), SP.be(SP.blen(body), 2), body)
+
+    def mrc_args(it):
+        it._mp = reach_case(it)
+        return [reach_value(it._mp)]
+    U('MpReachNLRI.construct', MPR + 'construct', mrc_args, lambda it, v: ('ret', attr_ext(14, 0x90, reach_body(it._mp))))
+
+    def mrp_args(it):
+        it._mp = reach_case(it)
+        return [SBytes.of(reach_body(it._mp)), None]
+    U('MpReachNLRI.parse', MPR + 'parse', mrp_args, lambda it, v, ap: ('ret', reach_value(it._mp)), concrete_loops=True)
+
+    def unreach_case(it):
+        d = reach_case(it)
+        if d['fam'] == 'v6-linklocal':
+            from pyvc.values import Infeasible
+            raise Infeasible()
+        # withdrawn routes: VPN / labeled routes carry the withdraw label 0x800000
+        if d['safi'] == 128:
+            r = d['nlri'][0]
+            d['wd_value'] = [{'label': r['label'], 'rd': r['rd'], 'prefix': r['prefix']}]
+            d['wd_decoded'] = [{'label': [524288], 'rd': r['rd'], 'prefix': r['prefix']}]
+            pl = 24 if d['afi'] == 1 else 64
+            d['wd_bin'] = SP.cat(SP.be(88 + pl, 1), b'\x80\x00\x00', SP.sl(d['nlri_bin'], 4, None))
+        elif d['safi'] == 4:
+            r = d['nlri'][0]
+            d['wd_value'] = [dict(r)]
+            d['wd_decoded'] = [{'prefix': r['prefix'], 'label': [524288]}]
+            d['wd_bin'] = SP.cat(SP.sl(d['nlri_bin'], 0, 1), b'\x80\x00\x00', SP.sl(d['nlri_bin'], 4, None))
+        else:
+            d['wd_value'] = d['wd_decoded'] = d['nlri']
+            d['wd_bin'] = d['nlri_bin']
+        return d
+
+    def unreach_body(d):
+        return SP.cat(SP.be(d['afi'], 2), SP.be(d['safi'], 1), d['wd_bin'])
+
+    def muc_args(it):
+        it._mp = unreach_case(it)
+        return [{'afi_safi': (it._mp['afi'], it._mp['safi']), 'withdraw': it._mp['wd_value']}]
+    U('MpUnReachNLRI.construct', MPU + 'construct', muc_args, lambda it, v: ('ret', attr_ext(15, 0x90, unreach_body(it._mp))))
+
+    def mup_args(it):
+        it._mp = unreach_case(it)
+        return [SBytes.of(unreach_body(it._mp)), None]
+    U('MpUnReachNLRI.parse', MPU + 'parse', mup_args,
+      lambda it, v, ap: ('ret', {'afi_safi': (it._mp['afi'], it._mp['safi']), 'withdraw': it._mp['wd_decoded']}), concrete_loops=True)
     return us
